@@ -129,6 +129,16 @@ def rand_peaks(rng, fy, fx, c, n, where=None):
 # ---------------------------------------------------------------------------------------------
 # running the implementation
 # ---------------------------------------------------------------------------------------------
+class InputModified(Exception):
+    """an argument that is documented as input only was modified in place by the library"""
+
+
+def _unchanged(what, triples):
+    for name, now, before in triples:
+        if not np.array_equal(np.asarray(now), before, equal_nan=True):
+            raise InputModified('%s modified its input `%s` in place' % (what, name))
+
+
 def run_fast(pattern, frame, peaks, bc=None, crop_function=None, upsample=False, dtype=np.float32, fill=0.0, crop_bufs=None, outs=None):
     c = pattern.get_crop_size()
     template = pattern.get_template(sig_shape=(2 * c, 2 * c))
@@ -141,9 +151,12 @@ def run_fast(pattern, frame, peaks, bc=None, crop_function=None, upsample=False,
     kw = {}
     if crop_function is not None:
         kw['crop_function'] = crop_function
-    blc.process_frame_fast(template=template, crop_size=c, frame=frame, peaks=np.asarray(peaks, dtype=np.int64).reshape(-1, 2),
+    pk = np.asarray(peaks, dtype=np.int64).reshape(-1, 2).copy()
+    pk0, fr0, t0 = pk.copy(), np.array(frame, copy=True), np.array(template, copy=True)
+    blc.process_frame_fast(template=template, crop_size=c, frame=frame, peaks=pk,
                            out_centers=outs[0], out_refineds=outs[1], out_heights=outs[2], out_elevations=outs[3],
                            crop_bufs=crop_bufs, upsample=upsample, **kw)
+    _unchanged('process_frame_fast', (('peaks', pk, pk0), ('frame', frame, fr0), ('template', template, t0)))
     return outs
 
 
@@ -159,9 +172,12 @@ def run_full(pattern, frame, peaks, bc=None, crop_function=None, upsample=False,
     kw = {}
     if crop_function is not None:
         kw['crop_function'] = crop_function
-    blc.process_frame_full(template=template, crop_size=c, frame=frame, peaks=np.asarray(peaks, dtype=np.int64).reshape(-1, 2),
+    pk = np.asarray(peaks, dtype=np.int64).reshape(-1, 2).copy()
+    pk0, fr0, t0 = pk.copy(), np.array(frame, copy=True), np.array(template, copy=True)
+    blc.process_frame_full(template=template, crop_size=c, frame=frame, peaks=pk,
                            out_centers=outs[0], out_refineds=outs[1], out_heights=outs[2], out_elevations=outs[3],
                            frame_buf=frame_buf, buf_count=bc or max(n, 1), upsample=upsample, **kw)
+    _unchanged('process_frame_full', (('peaks', pk, pk0), ('frame', frame, fr0), ('template', template, t0)))
     return outs
 
 
